@@ -632,6 +632,10 @@ fn spawn_async_ao_list_in_task'''),
         ('declared-but-unset-associative-array-gets-a-numeric-subscript', 'brush-core/src/expansion.rs', "                    matches!(\n                        var.value(),\n                        ShellValue::AssociativeArray(_)\n                            | ShellValue::Unset(ShellValueUnsetType::AssociativeArray)\n                    )\n                } else {\n                    false\n                };\n\n                let index_to_use = self\n                    .expand_array_index(index.as_str(), is_set_assoc_array)", "                    matches!(var.value(), ShellValue::AssociativeArray(_))\n                } else {\n                    false\n                };\n\n                let index_to_use = self\n                    .expand_array_index(index.as_str(), is_set_assoc_array)"),
         ('subscript-always-a-string-key', 'brush-core/src/expansion.rs', "                    .expand_array_index(index.as_str(), is_set_assoc_array)\n                    .await?;\n                (name, Some(index_to_use))", "                    .expand_array_index(index.as_str(), true)\n                    .await?;\n                (name, Some(index_to_use))"),
     ],
+    'U16c': [
+        ('ansi-c-zero-escape-takes-three-more-digits', 'brush-core/src/escape.rs', "                let max_to_take = if matches!(mode, EscapeExpansionMode::AnsiCQuotes) {\n                    2\n                } else {\n                    3\n                };", "                let max_to_take = 3;"),
+        ('ansi-c-nonzero-escape-takes-four-digits', 'brush-core/src/escape.rs', "                    if taken_so_far < 3 && matches!(next_c, '0'..='7') {", "                    if taken_so_far <= 3 && matches!(next_c, '0'..='7') {"),
+    ],
     'U16': [
         ('tilde-not-flagged-at-start', 'brush-core/src/escape.rs', "    matches!(c, '#' | '~')", "    matches!(c, '#')"),
         ('bang-not-flagged', 'brush-core/src/escape.rs', "            | '!'\n", ""),
